@@ -141,6 +141,8 @@ struct c13_session : public vsim_session {
         o << "\n";
       }
     }
+    // engine-side request of total forces (a single flag, set as a side effect of enabling total_force_calculation)
+    o << "ENGINE tfreq " << (proxy->total_forces_enabled() ? 1 : 0) << "\n";
     // engine-side atom reference counts (sorted by atom id)
     std::vector<std::pair<int, int> > at;
     for (size_t i = 0; i < proxy->atoms_ids.size(); i++) at.push_back(std::make_pair(proxy->atoms_ids[i], int(proxy->atoms_refcount[i])));
